@@ -350,7 +350,7 @@ func (o Obs) Coq() string {
 	}
 	var b strings.Builder
 	b.WriteString("(mkObs " + res + " " + coqOptKeyRec(o.Start) + " " + coqList(cks) + " " + coqList(script) + " " +
-		coqOptKeyRec(o.Final) + "\n    " + coqList(evs) + "\n    " + coqList(cache) + "\n    " + coqList(store) + "\n    " +
+		coqOptKeyRec(o.Final) + "\n    " + coqList(evs) + "\n    " + coqList(cache) + "\n    " + coqList(store) + "\n    " + coqBools(o.Expired) + " " +
 		o.Jar.Coq() + " " + coqZ(o.Now) + " " + strconv.Itoa(o.Drawn) + ")")
 	return b.String()
 }
